@@ -156,6 +156,22 @@ class SFLW(Subject):
         self.lst.set_focus(i)
 
 
+class SFLWPlain(SFLW):
+    """The same walker observed as a ListBox observes it: only through the 'modified' signal, with the walker's own
+    focus-changed hook left in place (installing an observer there would replace whatever the walker put there itself)."""
+
+    name = "SimpleFocusListWalker.signal_only"
+    kind = "focus_nocb"
+
+    def make(self, items, focus):
+        import urwid
+
+        self.lst = urwid.SimpleFocusListWalker(items)
+        if items:
+            self.lst.focus = focus
+        urwid.connect_signal(self.lst, "modified", self._on_mod)
+
+
 class SLW(Subject):
     """SimpleListWalker: MonitoredList + a position re-clamped by the walker's _modified wrapper; observed as a ListBox
     observes it, through get_focus() (None when there is nothing to focus)."""
@@ -269,7 +285,7 @@ class GridFlowC(_Container):
         return g
 
 
-SUBJECTS = {c.name: c for c in (MFL, ML, SFLW, SLW, PileC, ColumnsC, GridFlowC)}
+SUBJECTS = {c.name: c for c in (MFL, ML, SFLW, SFLWPlain, SLW, PileC, ColumnsC, GridFlowC)}
 
 
 # ------------------------------------------------------------------------------------------------
@@ -454,7 +470,7 @@ def run(chk):
     # other subjects: every op from a few states
     few = [s for s in sts if len(s[0]) in (0, 1, 3)][:: (3 if quick else 1)]
     small_ops = all_ops(3, 2, 1, [1, 2, 3])
-    for cls in (ML, SFLW, SLW, PileC, ColumnsC, GridFlowC):
+    for cls in (ML, SFLW, SFLWPlain, SLW, PileC, ColumnsC, GridFlowC):
         for items, f in few:
             for op in small_ops:
                 if cls is ML and op["n"] == "setfocus":
@@ -471,7 +487,7 @@ def run(chk):
                 traces.append(record(MFL, items, f, [o1, o2]))
                 n_pairs += 1
     pair_states = [([1, 2, 3], 2), ([1, 2], 1), ([], -1)] if not quick else [([1, 2, 3], 2)]
-    for cls in (SFLW, SLW, PileC, ColumnsC, GridFlowC, ML):
+    for cls in (SFLW, SFLWPlain, SLW, PileC, ColumnsC, GridFlowC, ML):
         for items, f in pair_states:
             for o1 in r1:
                 for o2 in r2:
@@ -492,7 +508,7 @@ def run(chk):
     # ---- code -> spec, seeded random histories --------------------------------------------
     n_rand = 1500 if quick else 40000
     for i in range(n_rand):
-        cls = [MFL, MFL, SFLW, ML, PileC, ColumnsC, GridFlowC, SLW][i % 8]
+        cls = [MFL, MFL, SFLW, ML, PileC, ColumnsC, GridFlowC, SLW, SFLWPlain][i % 9]
         n0 = rng.randint(0, 5)
         items = list(range(1, n0 + 1))
         rng.shuffle(items)
